@@ -33,7 +33,12 @@ def renderRep : RepRes → String
   | .produced r =>
     s!"ok t={tT r.topic} keys={joinWith "," r.keys} ekeys={if r.err.hasInfo then "code,errorinfo,message" else "code,message"} code={hexStr r.err.code} msg={hexStr r.err.message} event={match r.event with | .same => "same" | .replaced => "replaced"} children=none"
 
-def checkOp (ct : String) (op : String) (impl : String) : Verdict :=
+def checkOp (ct : String) (op0 : String) (impl : String) : Verdict :=
+  -- "ctxreport k a b c": the report is built by the executor (node.Context.handleFailure) for an event whose `Created` lies
+  -- beyond year 9999, so the event itself cannot be serialised: judged as a report with an unserialisable event
+  let op := match words op0 with
+    | ["ctxreport", k, a, b, c] => joinWith " " ["report", "1", "0", k, a, b, c]
+    | _ => op0
   match words op with
   | ["req", t, v] =>
     let r := produce (unT ct) (.request (unT t) v)
